@@ -35,7 +35,11 @@ MIN = {'quick': {'distinct': 2500,
                  'hooks': dict([('transform.' + n, 300) for n in STRUCTURAL]),
                  'strata': {'sequence length>=4': 800,
                             'punctuation-only constituent': 300,
-                            'one-token sentence': 50}},
+                            'one-token sentence': 50,
+                            'parameter bare_bin_labels': 80,
+                            'parameter relc': 300,
+                            'parameter mark_heads_preset=negra': 400,
+                            'parameter mark_heads_preset=ptb': 400}},
        'thorough': {'distinct': 100000,
                     'hooks': dict([('transform.' + n, 20000)
                                    for n in STRUCTURAL])}}
@@ -256,6 +260,10 @@ def run_case(ctx, case, rng):
     m = model.from_spec(case['spec']['root'])
     if len(case['seq']) >= 4:
         ctx.stratum('sequence length>=4')
+    for step, params in case['seq']:
+        for k, v in sorted(params.items()):
+            ctx.stratum('parameter %s%s' % (k, '=' + v if k ==
+                                            'mark_heads_preset' else ''))
     if any(n.children and all((not k.children) and k.word in PUNCT
                               for k in n.children) for n in m.nodes()):
         ctx.stratum('punctuation-only constituent')
